@@ -35,7 +35,7 @@ RULE = ('(a) fault-free: random configurations incl. compositions/temperatures o
 REQUIRED_MONITORS = ['c03.end_time', 'c03.time_increasing', 'c03.aligned', 'c03.finite', 'c03.fraction_bounds', 'c03.psd_step']
 REACH = ['precipitation/KWNEuler.py:PrecipitateModel._singleGrowthMulti', 'precipitation/KWNEuler.py:PrecipitateModel._createLookupBinary',
          'precipitation/PrecipitationParameters.py:PrecipitationData.appendToArrays', 'precipitation/KWNEuler.py:PrecipitateModel.getDt']
-MIN_NONTRIVIAL = {'quick': 28, 'thorough': 500}
+MIN_NONTRIVIAL = {'quick': 28, 'thorough': 300}
 CASE_TIMEOUT = 900
 CASE_TIMEOUT_THOROUGH = 1800
 MAX_INCONCLUSIVE_FRACTION = 0.03
